@@ -56,3 +56,36 @@ def Proportional (m : Nat) (u v : Nat → ℂ) : Prop :=
 def ampOf (vec : Array ℂ) : Nat → ℂ := fun b => vec.getD b 0
 
 end Qclib.Ent
+
+namespace Qclib.Ent
+
+/-! ### list versions (geometric measure post-processing) -/
+
+/-- `⟨u,v⟩ = Σ conj(u_i)·v_i` for lists (up to the shorter length). -/
+noncomputable def dotL : List ℂ → List ℂ → ℂ
+  | a :: u, b :: v => (starRingEnd ℂ) a * b + dotL u v
+  | _, _ => 0
+
+/-- `‖u‖²` for lists. -/
+noncomputable def nrm2L : List ℂ → ℝ
+  | [] => 0
+  | a :: u => Complex.normSq a + nrm2L u
+
+end Qclib.Ent
+
+namespace Qclib.Ent
+
+/-! ### one-qubit gates on amplitude functions -/
+
+/-- The 2×2 matrix `U` (entry `U row col`) applied to qubit `q` (bit `q` of the label). -/
+def apply1 (U : Bool → Bool → ℂ) (q : Nat) (ψ : Nat → ℂ) : Nat → ℂ := fun b =>
+  U (b.testBit q) false * ψ (insBit q false (delBit q b))
+    + U (b.testBit q) true * ψ (insBit q true (delBit q b))
+
+/-- `U†U = 1` for a 2×2 matrix (orthonormal columns). -/
+def IsUnitary2 (U : Bool → Bool → ℂ) : Prop :=
+  Complex.normSq (U false false) + Complex.normSq (U true false) = 1
+  ∧ Complex.normSq (U false true) + Complex.normSq (U true true) = 1
+  ∧ (starRingEnd ℂ) (U false false) * U false true + (starRingEnd ℂ) (U true false) * U true true = 0
+
+end Qclib.Ent
